@@ -62,3 +62,27 @@ Definition run_opt vars fns (e:expr) :=
   let E := mk_env vars fns in
   let '(st, e', tr) := optimize_t E (opt_fuel e) e [] in
   (st, e', tr, fst (eval_t E e), fst (eval_t E e'), check_names E e, check_names E e').
+
+(* bit-level boolean equalities, so that concrete examples can be decided by vm_compute without normalising the proof
+   terms carried inside Flocq's binary_float values *)
+Fixpoint value_eqb (a b:value) {struct a} : bool :=
+  match a, b with
+  | VBool x, VBool y => Bool.eqb x y
+  | VStr x, VStr y => leqb x y
+  | VNum x, VNum y => Z.eqb (to_bits x) (to_bits y)
+  | VArr x, VArr y => (fix go (l1 l2:list value) {struct l1} : bool := match l1, l2 with [], [] => true | p::t1, q::t2 => value_eqb p q && go t1 t2 | _, _ => false end) x y
+  | _, _ => false end.
+Definition op_eqb (a b:op) : bool := match a, b with
+  | Plus,Plus|Minus,Minus|Multiply,Multiply|Divide,Divide|Greater,Greater|GreaterEqual,GreaterEqual|Less,Less|LessEqual,LessEqual
+  | Equal,Equal|NotEqual,NotEqual|And,And|Or,Or|Xor,Xor|Not,Not|Div,Div|Mod,Mod|TernaryCondition,TernaryCondition => true | _,_ => false end.
+Fixpoint expr_eqb (a b:expr) {struct a} : bool :=
+  match a, b with
+  | EUn o r, EUn o' r' => op_eqb o o' && expr_eqb r r'
+  | EBin o l r, EBin o' l' r' => op_eqb o o' && expr_eqb l l' && expr_eqb r r'
+  | ETer o l m r, ETer o' l' m' r' => op_eqb o o' && expr_eqb l l' && expr_eqb m m' && expr_eqb r r'
+  | EArr x, EArr y => (fix go (l1 l2:list expr) {struct l1} : bool := match l1, l2 with [], [] => true | p::t1, q::t2 => expr_eqb p q && go t1 t2 | _, _ => false end) x y
+  | ELit v, ELit w => value_eqb v w
+  | EVar n, EVar m => leqb n m
+  | ECall n x, ECall m y => leqb n m && (fix go (l1 l2:list expr) {struct l1} : bool := match l1, l2 with [], [] => true | p::t1, q::t2 => expr_eqb p q && go t1 t2 | _, _ => false end) x y
+  | _, _ => false end.
+Definition res_is (r:res value) (v:value) : bool := match r with Ok w => value_eqb w v | Er _ => false end.
